@@ -209,7 +209,11 @@ class Resolver:
                 for tg in n.targets:
                     if isinstance(tg, ast.Name) and tg.id == ident:
                         found = True
-                        t = t.union(self.expr(f, n.value, depth + 1))
+                        declared = self.ann(m, n.sa_annotation) if getattr(n, "sa_annotation", None) is not None else None
+                        if declared is not None and getattr(declared, "classes", None):
+                            t = t.union(declared)  # a resolvable local annotation wins, as before normalisation
+                        else:
+                            t = t.union(self.expr(f, n.value, depth + 1))
                     elif isinstance(tg, (ast.Tuple, ast.List)):
                         for i, e in enumerate(tg.elts):
                             if isinstance(e, ast.Name) and e.id == ident:
